@@ -305,7 +305,7 @@ func c09Check(prop, tier string) (*Outcome, error) {
 	cmd := exec.Command("go", "build", "-overlay", ovFile, "-o", bin, "./"+filepath.ToSlash(rel))
 	cmd.Dir = engine.VerifDir
 	cmd.Env = engine.GoEnv()
-	if o, err := cmd.CombinedOutput(); err != nil {
+	if o, err := engine.RunLocked(cmd); err != nil {
 		return nil, fmt.Errorf("building the instrumented generator failed:\n%s", clipS(string(o), 3000))
 	}
 
